@@ -48,7 +48,7 @@ def learn_prune_traces(rep, tier, seed):
     metas = []
     orig_acc = g.opf_accuracy
     orig_fit, orig_predict = SupervisedOPF.fit, SupervisedOPF.predict
-    for i in range(300 if thorough else 60):
+    for i in range(500 if thorough else 120):
         r = np.random.default_rng(rng.randrange(2**31))
         nt, nv = rng.randrange(5, 14), rng.randrange(3, 9)
         k = rng.choice([2, 2, 3])
@@ -59,6 +59,9 @@ def learn_prune_traces(rep, tier, seed):
         Xv = r.normal(size=(nv, 2)) + sep * yv[:, None]
         if i % 4 == 0:
             Xt, Xv = np.round(Xt * 2) / 2, np.round(Xv * 2) / 2
+        elif i % 4 in (1, 3) and i % 2 == 1:
+            # prune runs on a coarse integer grid: samples that lose a distance tie to another class's prototype
+            Xt, Xv = np.round(Xt), np.round(Xv)
         I = H.Interner()
         met = rng.choice(["euclidean", "log_squared_euclidean", "manhattan"])
         kind = "learn" if i % 2 == 0 else "prune"
